@@ -11,6 +11,7 @@ import json as _realjson
 
 from ..engine import ModelGap
 from .seq import Seq, Seg
+from .symint import ite, smin, smax, clamp, band, bnot, bor
 from . import symnp
 
 _W = None
@@ -107,28 +108,29 @@ class File:
         pos = 0
         for s in self.bin.segs:
             n = s.hi - s.lo
-            if n <= 0:
-                continue
-            if pos >= need:
-                break
-            take = n
-            if pos + take > need:
-                take = need - pos
+            take = clamp(need - pos, 0, n)      # bytes of this segment inside the mapping
             src = s.src
-            ok = False
             if src[0] == 'E' and src[1] == dt.name and src[2] == dt.gt and src[3] == tuple(atom):
-                if s.lo % rb == 0 and take % rb == 0 and pos % rb == 0:
-                    ok = True
-                    out.append(Seg(src[4], s.lo // rb, (s.lo + take) // rb))
+                if rb == 1:
+                    bad = False
+                else:
+                    aligned = band(band(s.lo % rb == 0, take % rb == 0), pos % rb == 0)
+                    bad = band(take > 0, bnot(aligned))
+                if bad:
+                    out.append(Seg(('garbage', src, s.lo, pos), 0, nrows - (pos // rb)))
+                    return Seq(out)
+                out.append(Seg(src[4], s.lo // rb, (s.lo + take) // rb))
             elif src[0] == 'Z':
-                if take % rb == 0 and pos % rb == 0:
-                    ok = True
-                    out.append(Seg(('zero',), 0, take // rb))
-            if not ok:
-                # bytes that do not decode as whole rows of the expected encoding
-                rest = nrows - (pos // rb)
-                out.append(Seg(('garbage', src, s.lo, pos), 0, rest))
-                return Seq(out)
+                bad = band(take > 0, bnot(band(take % rb == 0, pos % rb == 0)))
+                if bad:
+                    out.append(Seg(('garbage', src, s.lo, pos), 0, nrows - (pos // rb)))
+                    return Seq(out)
+                out.append(Seg(('zero',), 0, take // rb))
+            else:
+                if take > 0:
+                    # bytes that do not decode as rows of the expected encoding
+                    out.append(Seg(('garbage', src, s.lo, pos), 0, nrows - (pos // rb)))
+                    return Seq(out)
             pos = pos + take
         return Seq(out)
 
@@ -459,10 +461,10 @@ def open(file, mode='r', buffering=-1, encoding=None, errors=None, newline=None,
         raise IsADirectoryError(errno.EISDIR, 'Is a directory')
     if m[0] == 'r':
         if node is None:
-            raise FileNotFoundError(errno.ENOENT, f'No such file or directory: {p!r}')
+            raise FileNotFoundError(errno.ENOENT, 'No such file or directory')
     elif m[0] == 'x':
         if node is not None:
-            raise FileExistsError(errno.EEXIST, f'File exists: {p!r}')
+            raise FileExistsError(errno.EEXIST, 'File exists')
     if node is None:
         if parent is None:
             raise FileNotFoundError(errno.ENOENT, 'no parent')
@@ -532,10 +534,8 @@ def _write_rows(f, arr):
         allowed = t
         fail = Crash('during binary write')
     elif node.limit is not None and pos + total > node.limit:
-        allowed = node.limit - pos
-        if allowed < 0:
-            allowed = 0
-        fail = OSError(errno.EFBIG, f'{total} requested and {allowed} written')
+        allowed = smax(node.limit - pos, 0)
+        fail = OSError(errno.EFBIG, 'File too large (fewer bytes written than requested)')
     if node.bin is None:
         if node.text == '':
             node.bin = Seq()
@@ -543,11 +543,11 @@ def _write_rows(f, arr):
             raise ModelGap('binary write into text file')
     size = node.bin.length()
     if allowed > 0:
-        head = node.bin.cut(0, pos if pos < size else size)
+        head = node.bin.cut(0, smin(pos, size))
         if pos > size:
             head = head.concat(Seq.of(('Z',), pos - size))
         end = pos + allowed
-        tail = node.bin.cut(end if end < size else size, size)
+        tail = node.bin.cut(smin(end, size), size)
         node.bin = head.concat(new.cut(0, allowed)).concat(tail)
         node.text = None
     f.pos = pos + allowed
@@ -695,7 +695,7 @@ class Path:
     def stat(self):
         n = self._node()
         if n is None:
-            raise FileNotFoundError(errno.ENOENT, f'No such file or directory: {self._s!r}')
+            raise FileNotFoundError(errno.ENOENT, 'No such file or directory')
         if isinstance(n, Dir):
             return StatResult(4096, True)
         return StatResult(n.size(), False)
@@ -744,9 +744,9 @@ def unlink(p, missing_ok=False):
     if node is None:
         if missing_ok:
             return
-        raise FileNotFoundError(errno.ENOENT, f'No such file or directory: {p!r}')
+        raise FileNotFoundError(errno.ENOENT, 'No such file or directory')
     if isinstance(node, Dir):
-        raise IsADirectoryError(errno.EISDIR, f'Is a directory: {p!r}')
+        raise IsADirectoryError(errno.EISDIR, 'Is a directory')
     if parent is None:
         raise ModelGap('unlink root')
     if _W.tick('unlink'):
@@ -762,11 +762,11 @@ def rmdir(p):
     p = _fspath(p)
     parent, name, node = _W._walk(p, follow_last=False)
     if node is None:
-        raise FileNotFoundError(errno.ENOENT, f'No such file or directory: {p!r}')
+        raise FileNotFoundError(errno.ENOENT, 'No such file or directory')
     if not isinstance(node, Dir):
-        raise NotADirectoryError(errno.ENOTDIR, f'Not a directory: {p!r}')
+        raise NotADirectoryError(errno.ENOTDIR, 'Not a directory')
     if len(node.entries) > 0:
-        raise OSError(errno.ENOTEMPTY, f'Directory not empty: {p!r}')
+        raise OSError(errno.ENOTEMPTY, 'Directory not empty')
     if parent is None:
         raise ModelGap('rmdir of . or root')
     if _W.tick('rmdir'):
@@ -784,7 +784,7 @@ def mkdir(p, mode=0o777, parents=False, exist_ok=False):
     if node is not None:
         if exist_ok and isinstance(node, Dir):
             return
-        raise FileExistsError(errno.EEXIST, f'File exists: {p!r}')
+        raise FileExistsError(errno.EEXIST, 'File exists')
     if parent is None:
         raise FileNotFoundError(errno.ENOENT, 'no parent')
     if _W.tick('mkdir'):
@@ -798,7 +798,7 @@ def truncate(p, length):
     p = _fspath(p)
     parent, name, node = _W._walk(p, follow_last=True)
     if node is None:
-        raise FileNotFoundError(errno.ENOENT, f'No such file or directory: {p!r}')
+        raise FileNotFoundError(errno.ENOENT, 'No such file or directory')
     if isinstance(node, Dir):
         raise IsADirectoryError(errno.EISDIR, 'Is a directory')
     truncate_node(node, length)
